@@ -1,15 +1,33 @@
 #!/usr/bin/env python3
-"""Prints a markdown table of /verif/seeded/*/meta.json (for DESIGN.md section 10.5)."""
+"""Prints the markdown table of /verif/seeded/*/meta.json for DESIGN.md section 10.5 (uses the `reverified` record written
+by tools/reverify_seeds.py when present, else the record of the first evaluation by tools/keep_seed.py)."""
 import json, glob, os
 rows = []
+n = own = anyc = conf = 0
 for f in sorted(glob.glob('/verif/seeded/*/meta.json')):
     m = json.load(open(f))
     name = os.path.basename(os.path.dirname(f))
     target = m['property']
-    caught = m.get('caught_by', [])
-    rows.append('| %s | %s | %s | %s | %s |' % (name, (m.get('summary') or '').replace('|', '/')[:170],
-                                             'yes' if m.get('confirmed') else 'NO', ', '.join(caught) or '**none**',
-                                             'yes' if target in caught else '**no**'))
-print('| seeded change | what it does | confirmed (tests pass, demo fails/passes) | quick checks that report a violation | caught by its own property\'s check |')
-print('|---|---|---|---|---|')
+    r = m.get('reverified') or {}
+    caught = r.get('caught_by') if r.get('patch_applies') else m.get('caught_by', [])
+    caught = caught or []
+    confirmed = bool(m.get('confirmed'))
+    n += 1
+    conf += confirmed
+    if confirmed:
+        own += target in caught
+        anyc += bool(caught)
+    what = (m.get('summary') or '').replace('|', '/').replace('\n', ' ')
+    if len(what) > 150:
+        what = what[:147] + '...'
+    note = ''
+    if not confirmed:
+        note = ' (not a confirmed break: see meta.json)'
+    rows.append('| %s | %s%s | %s | %s |' % (name, what, note, ', '.join(caught) or '**none**',
+                                          'yes' if target in caught else ('-' if not confirmed else '**no**')))
+print('| change | what it does | quick checks reporting a violation | own property\'s check |')
+print('|---|---|---|---|')
 print('\n'.join(rows))
+print()
+print('%d kept, %d confirmed; of the confirmed ones %d are reported by the check of their own property, %d by at least one check.'
+      % (n, conf, own, anyc))
